@@ -4,18 +4,18 @@ CONSTANTS
   MaxRedirect = 65535
   MaxHeader = 255
   Deviations = {}
-  Bug = ""
+  Bug = "KernIndexBeforeDedupe"
   Mode = "lk"
   NC = 2
   MaxBody = 3
-  MaxPrefix = 2
+  MaxPrefix = 0
   SkipBytes = {0, 128}
-  Variants = {0}
+  Variants = {2}
   DimVals = {0, 3}
   MaxW = 2
   MaxH = 1
   DomT = 1
   PadK = 0
   Waive = {}
-INVARIANTS Idempotent SameFont SameChains Fits Closed MainLoopSame PlWellFormed
+INVARIANTS SameChains SameFont
 CHECK_DEADLOCK FALSE
